@@ -179,6 +179,10 @@ PROBES: Dict[str, tuple] = {
     'R13': ('def f(xs):\n    s = set(xs)\n    return [x for x in s]\n', 1),
     'R86': ('from typing import Iterable\ndef f(lines: Iterable[str]):\n    n = len(list(lines))\n    return [l for l in lines], n\n', 1),
     'R104': ('def f(rows):\n    out = []\n    for r in rows:\n        if r:\n            last = r\n        out.append(last)\n    return out\n', 1),
+    'R125': ('def is_atomic(x):\n    return x is None or isinstance(x, (str, int, float))\ndef f(rest, variables):\n    a = [b for b in rest if isinstance(b[1], str) and b[1] not in variables]\n'
+             '    e = [b for b in rest if not is_atomic(b[1]) or b[1] in variables]\n    rest = a + e\n    return rest\n', 1),
+    'R126': ('def f(tables, out):\n    for name, funcs in tables:\n        def key(role):\n            return [g(role) for g in funcs]\n        out[name] = key\n    return out\n', 1),
+    'R127': ('def f(meta):\n    key, value = meta.split(None, 1)\n    return key, value\n', 1),
     'R96': ('def f(a) -> str:\n    if a:\n        return "x"\n', 1),
 }
 
